@@ -16,6 +16,10 @@ func shortStackAll() string { return string(debug.Stack()) }
 func sceneFor(name string) SceneOpts {
 	o := DefaultScene()
 	switch name {
+	case "positions", "orders":
+		// the begin-block sweep pages through the leveraged positions one per block (as on a chain with more positions
+		// than NumberPerBlock): a position is NOT refreshed in every block
+		o.LevPerBlock = 1
 	case "oracle":
 		o.Lifetime = 2
 		o.Expiry = 60
@@ -27,6 +31,7 @@ func sceneFor(name string) SceneOpts {
 		o.Lifetime = 3
 		o.Expiry = 3600
 		o.BurnEpoch = "five_minutes"
+		o.LevPerBlock = 1
 		o.EdenPerYear = "10000000000000"
 	case "rewards":
 		o.EdenPerYear = "10000000000000"
